@@ -10,13 +10,34 @@
    of an empty table (time), uTP transfers in processContent (a content answer is just bytes).  The query goroutines
    are the `pending` list: which one replies next is the scheduler's choice, i.e. the argument of the transition.
    No proofs in this file. *)
-From Shisui Require Import Base.Bytes Gen.K_table.
+From Shisui Require Import Base.Bytes Gen.K_table Gen.K_wire.
 
 Definition E_BLOCKED : N := 1.       (* a channel receive that nobody will ever satisfy *)
 Definition E_NOT_PENDING : N := 2.   (* schedule names a reply that is not outstanding (driver input error) *)
 
 Definition alphaZ : Z := Z.of_N K_alpha.
 Definition bucket_size : nat := N.to_nat K_bucketSize.
+
+Definition findnodes_limit : nat := N.to_nat K_portalFindnodesResultLimit.
+Definition lookup_request_limit : nat := N.to_nat K_lookupRequestLimit.
+
+(* enode.LogDist(a, b) = 256 - leading zero bits of a xor b = the bit length of a xor b *)
+Definition logdist (a b : N) : Z := Z.of_N (N.size (N.lxor a b)).
+
+(* lookupDistances(target, dest): dists = [td]; for i := 1; len(dists) < lookupRequestLimit; i++ {
+     if td+i <= 256 { append td+i }; if td-i > 0 { append td-i } }            (fuel: i never needs to pass 257) *)
+Fixpoint lookup_dists_loop (fuel : nat) (td i : Z) (dists : list Z) : list Z :=
+  match fuel with
+  | O => dists
+  | S f =>
+      if Nat.ltb (length dists) lookup_request_limit then
+        let d1 := if Z.leb (td + i) 256 then dists ++ [(td + i)%Z] else dists in
+        let d2 := if Z.ltb 0 (td - i) then d1 ++ [(td - i)%Z] else d1 in
+        lookup_dists_loop f td (i + 1)%Z d2
+      else dists
+  end.
+Definition lookup_distances (target dest : N) : list Z :=
+  let td := logdist target dest in lookup_dists_loop 600 td 1 [td].
 
 Definition mem (x : N) (l : list N) : bool := existsb (N.eqb x) l.
 
@@ -67,6 +88,12 @@ Section Keyed.
     | [] => Ok e
     | n :: r => bind (push e n maxElems) (fun e' => push_all e' r maxElems)
     end.
+
+  (* PortalProtocol.lookupWorker, after findNodes returned r:
+       nodes := nodesByDistance{target}; for _, n := range r { if n.ID() != self { addFoundNode(n); nodes.push(n, portalFindnodesResultLimit) } }
+       return nodes.entries                 -- this is the reply lookup.query hands to the lookup *)
+  Definition lookup_worker_reply (self : N) (r : list N) : res (list N) :=
+    push_all [] (filter (fun n => negb (N.eqb n self)) r) findnodes_limit.
 
   (* Table.findnodeByID(target, nresults, false) over the bucket entries in visiting order *)
   Definition findnode_by_id (tbl : list N) (nresults : nat) : res (list N) := push_all [] tbl nresults.
